@@ -4,7 +4,7 @@ import json, os, sys
 sys.path.insert(0, "/verif")
 import registry
 
-TECH = "bounded symbolic execution of the real Rust code with Kani 0.68 / CBMC 6.11; each harness's assertions decided by one SAT query (CaDiCaL) over all values of its symbolic inputs; counterexamples replayed natively"
+TECH = "bounded symbolic execution of the real Rust code with Kani 0.68 / CBMC 6.11 (solver-based checking): each harness's assertions are decided by SAT queries (CaDiCaL) over all values of its symbolic inputs within the stated bounds, unwinding assertions on; counterexamples are replayed natively before a violation is reported"
 
 P = {
  "C01": dict(
@@ -12,12 +12,12 @@ P = {
    note="Outside the claim: reading index files from disk, the enumeration of candidate index file names (format!), the per-handle cache, dat-file selection in extract (std::fs, not encodable). str::to_lowercase is stubbed by its ASCII contract.",
    ref="DESIGN.md section 4, C01"),
  "C02": dict(
-   text="Bounded model checking of the block-level kernels of extraction: block header decode for all headers, read_data_block for raw blocks of enumerated lengths with symbolic content and for deflated blocks against an abstract inflate oracle, layout of the synthesized model file header for all field values.",
-   note="Outside the claim: read_standard_file / read_model_file / read_texture_file and GameData::extract operate on std::fs::File and cannot be executed symbolically; real deflate streams are replaced by an abstract oracle (only the call contract is checked).",
+   text='Bounded model checking of extraction: block header decode for all headers, read_data_block for raw blocks of enumerated lengths with symbolic content and for deflated blocks against an abstract inflate oracle, layout of the synthesized model file header for all field values, and reassembly of standard / texture (quick tier) and model (thorough tier) entries over an in-memory dat file at enumerated block tables with symbolic content.',
+   note='Environment model: the std::fs::File field of SqPackData is an in-memory file in the scratch copy. Outside the claim: GameData::extract (dat selection, files on disk), block tables other than the listed ones; real deflate streams are replaced by an abstract oracle (only the call contract is checked).',
    ref="DESIGN.md section 4, C02"),
  "C03": dict(
-   text="Bounded model checking of the ZiPatch command decoding and of the patch data block reader (alignment arithmetic) at enumerated concrete layouts with symbolic field bytes.",
-   note="Outside the claim: every effect of ZiPatch::apply on the directory tree (std::fs), sequencing of patches, success reporting.",
+   text='Bounded model checking of the ZiPatch command decoding, of the patch data block reader (alignment arithmetic) and of the two file-writing kernels of apply (empty-block header for delete/expand, zero fill) over an in-memory file model, at enumerated concrete layouts with symbolic field bytes / previous file contents.',
+   note='Outside the claim: ZiPatch::apply as a whole (command dispatch, patch-side file naming, sequencing of chunks and patches, success reporting): attempted over the file model and the format model, no verdict (derived PartialEq on a niche-encoded enum is not constant-folded by CBMC; DESIGN.md section 4, C03).',
    ref="DESIGN.md section 4, C03"),
  "C04": dict(
    text="Bounded model checking of the writer/reader law for patch data blocks (enumerated lengths around the 128-byte alignment, symbolic content) and of the chunks ZiPatch::create emits.",
@@ -25,15 +25,15 @@ P = {
    ref="DESIGN.md section 4, C04"),
  "C05": dict(
    text="Bounded model checking of EXD::read_row / read_column: for every column type at enumerated concrete offsets the cell equals the stored big-endian value for all row bytes; strings, sub-rows, stride arithmetic beyond 16 bits and row lookup at enumerated shapes with symbolic contents.",
-   note="Shapes (column type/offset, sub-row counts, ids) are concrete per harness and listed in the evidence; anything not listed is outside the claim, as are archive lookup (GameData, std::fs), file name formatting (format!) and EXL text parsing.",
+   note="Shapes (column type/offset, sub-row counts, ids) are concrete per harness and listed in the evidence; anything not listed is outside the claim, as are archive lookup (GameData, std::fs), whole-file EXH/EXD parsing and EXL text parsing. Page file names are decided through a model of std's formatting engine (the format string and arguments are Physis's; DESIGN.md section 2) for start ids below 100 000 and three ten-digit ids.",
    ref="DESIGN.md section 4, C05"),
  "C06": dict(
    text="Bounded model checking of the typed vertex attribute readers for all input bytes (every half pattern against an independent IEEE conversion, byte/255, tangents, raw tuples) and of the vertex declaration parser at enumerated declaration shapes.",
-   note="half's run-time CPU dispatch is stubbed by the crate's portable conversion. Whole-file MDL::from_existing is outside the claim unless listed as decided in the evidence (binrw over large buffers).",
+   note="half's run-time CPU dispatch is stubbed by the crate's portable conversion. Whole-file MDL::from_existing is decided for one generated minimal model in the thorough tier only (8-15 min); other layouts are outside the claim.",
    ref="DESIGN.md section 4, C06"),
  "C07": dict(
-   text="Bounded model checking of the attribute codecs (write(read(b)) == b for all canonical encodings: all bytes, all non-NaN halves, floats bit-exact), of the declaration writer/parser round trip and of one inductive header-update step over symbolic mesh tables.",
-   note="Header-update step: widths reduced as stated per harness (symbolic products); version-6 writing and whole-file write->parse are outside the claim unless listed as decided in the evidence.",
+   text='Bounded model checking of the attribute codecs (write(read(b)) == b for all canonical encodings: all bytes, all non-NaN halves, floats bit-exact), of the declaration writer/parser round trip, of one inductive header-update step over symbolic mesh tables, and (thorough tier) of MDL::write_to_buffer on a minimal version-5 model: every section and vertex element at its byte position for symbolic attribute values.',
+   note='Header-update step: widths reduced as stated per harness (symbolic products); write_to_buffer harnesses take 16-17 min each and are thorough-only; version-6 writing and whole-file write->parse->compare are outside the claim.',
    ref="DESIGN.md section 4, C07"),
  "C09": dict(
    text="Bounded model checking of the preset checksum against its definition, of the documented field offsets of a written preset, of the gear-id marker conversion for all 32-bit ids and of the dat header / gear slot layouts.",
@@ -56,16 +56,16 @@ P = {
    note="Image sizes are concrete per harness (listed in the evidence); sizes up to 512 are outside the claim (uniform block loop). The alpha of BC1's black entry is unconstrained as the property says.",
    ref="DESIGN.md section 4, C13"),
  "C14": dict(
-   text="Bounded model checking of the half-float tuple readers for all stored values, of colour/dye table rows through the real BinRead impls, of selector construction for all key lists up to the stated length and of node lookup over small symbolic node/alias tables.",
-   note="Whole-file Material/ShaderPackage parsing is outside the claim unless listed as decided in the evidence.",
+   text='Bounded model checking of the half-float tuple readers for all stored values, of colour/dye table rows through the real BinRead impls, of selector construction for all key lists up to the stated length, of node lookup over small symbolic node/alias tables, and of ShaderPackage::from_existing on a generated minimal package (counts concrete, every id / key / selector / pass field / alias target symbolic) including the selector table it builds.',
+   note='Material::from_existing and shader packages with shaders / resource parameters (string offsets) are outside the claim.',
    ref="DESIGN.md section 4, C14"),
  "C15": dict(
-   text="Bounded model checking over the complete finite domains: race/tribe/gender tables (definedness, injectivity, documented codes), slot and category tables, the equipment file name deconstructor at enumerated ids with symbolic surroundings, repository ordering for all triples of repository types.",
-   note="Outside the claim: every function that formats with format! (build_*_path, index/dat file names): even fully concrete calls came back without a verdict (DESIGN.md section 3); the patch-side file names (closures in ZiPatch::apply).",
+   text='Bounded model checking over the complete finite domains: race/tribe/gender tables (definedness, injectivity, documented codes), slot and category tables, the equipment file name deconstructor at enumerated ids with symbolic surroundings, repository ordering for all triples of repository types, and the exact text of every built path and file name (index / index2 / dat names for all categories x expansions 0..9 x chunks 0..9 x platforms x data files 0..7; equipment, character, skeleton and material paths for all ids 0..9999 x valid triples x slots / categories).',
+   note="Paths and file names are decided through a model of std's formatting engine: the format strings and argument wiring are Physis's own, core::fmt's interpreter is replaced by straight-line emission that is compared with std::format! natively on every run (DESIGN.md section 2). Outside the claim: the patch-side file names (closures in ZiPatch::apply), deconstruct on symbolic digits.",
    ref="DESIGN.md section 4, C15"),
  "C16": dict(
-   text="Bounded model checking of the deformer chain walk over small symbolic link tables, of racial scaling rows and terrain plate positions for all stored values.",
-   note="Outside the claim: skeletons / Havok tag files (pointer-rich object graphs), deformer parsing, layer groups.",
+   text='Bounded model checking of the deformer chain walk over small symbolic link tables, of racial scaling rows, of terrain plate positions (parse and write) for all stored values, of layer heap strings (concrete text with non-graphic characters, symbolic surroundings) and of the Havok tag-file bit-level decoders (presence bit fields, packed integers) for all data bytes.',
+   note='Outside the claim: the Havok object graph and skeleton extraction (pointer-rich object graphs), deformer parsing, the layer group grammar.',
    ref="DESIGN.md section 4, C16"),
  "C17": dict(
    text="Bounded model checking of panic-freedom of the shared string helpers, the patch data block reader and the executable needle scan on bounded symbolic inputs.",
@@ -77,7 +77,7 @@ P = {
    ref="DESIGN.md section 4, C18"),
 }
 NA = {
- "C08": "std text pipeline (BufReader::lines, split, parse, format!) plus an OS-seeded HashMap: no bound at which Kani's symbolic execution finishes can hold one meaningful file (format! of fully concrete arguments did not decide in 900 s; DESIGN.md sections 3 and 5)",
+ "C08": "std text pipeline (BufReader::lines, split_once, str::parse, String growth) plus an OS-seeded HashMap: the positions of the structural characters depend on the symbolic bytes, so every slice bound and String length becomes symbolic (pushing one symbolic byte into a String, str::parse on symbolic digits and str slicing on symbolic bytes each ran out of memory or time, DESIGN.md section 3); with fully concrete text the harness would be a unit test run by a solver. The format! model built in session 2 removes only the writer's formatting cost, not the parser's. DESIGN.md section 5.",
 }
 
 props = sorted(set(h["prop"] for h in registry.HARNESSES))
@@ -108,7 +108,7 @@ m = {
            "baseline_off_cmd": "cd /repo && cargo test --workspace --no-fail-fast --offline",
            "source_commits": [], "add_only": True},
  "engines": [{"name": "kani-cbmc", "path": "/verif/check", "serves_properties": props,
-              "kind_free_text": "Kani 0.68 proof harnesses (harness/*.rs) compiled into a scratch copy of /repo's current working tree; CBMC 6.11 + CaDiCaL decide every assertion; tools/ hold the seeding helpers"}],
+              "kind_free_text": "Kani 0.68 proof harnesses (harness/*.rs) compiled into a scratch copy of /repo's current working tree (with dependency / environment models for binrw's fast paths and error diagnostics, std's formatting engine and std::fs in patch.rs, see DESIGN.md section 2); CBMC 6.11 + CaDiCaL decide every assertion; tools/ hold the seeding helpers"}],
  "checks": checks,
  "not_applicable": na,
  "notes": "Fix commits in /repo are listed in known_findings.json (status fixed). See DESIGN.md for bounds, stubs and what each check cannot see.",
